@@ -2,7 +2,9 @@ package props
 
 import (
 	"context"
+	"errors"
 	"fmt"
+	"io"
 	"strings"
 	"time"
 
@@ -27,13 +29,23 @@ func c14State(d *env.Direct) string {
 }
 
 // c14RPC runs one RPC of the given kind with the given outcome as the calling thread.
-//   outcomes: ok, herr, cancel<k> (cancel after k caller operations), deadline, reset (server resets: body for unknown stream),
-//             openfail (the open envelope's transport write fails)
+//
+//	outcomes: ok, herr, cancel<k> (cancel after k caller operations), deadline, reset (server resets: body for unknown stream),
+//	          openfail (the open envelope's transport write fails)
 func c14RPC(w *env.World, d *env.Direct, kind, outcome, tag string) {
 	r := w.Rec(tag, kind)
 	var herr error
-	if outcome == "herr" {
+	switch outcome {
+	case "herr":
 		herr = status.Error(codes.Aborted, "no")
+	case "herr-eof": // error VALUES a handler may return: io.EOF is an error like any other here
+		herr = io.EOF
+	case "herr-wrapped-eof":
+		herr = fmt.Errorf("reading upstream: %w", io.EOF)
+	case "herr-plain":
+		herr = errors.New("plain failure")
+	case "herr-canceled": // e.g. the error of a downstream call, not a cancellation of this RPC
+		herr = context.Canceled
 	}
 	if kind == "Unary" {
 		ctx, cancel := context.WithCancel(context.Background())
@@ -75,7 +87,7 @@ func c14RPC(w *env.World, d *env.Direct, kind, outcome, tag string) {
 		defer c2()
 	}
 	switch outcome {
-	case "ok", "herr":
+	case "ok", "herr", "herr-eof", "herr-wrapped-eof", "herr-plain", "herr-canceled":
 		switch kind {
 		case "SStream":
 			w.Handlers[tag] = func(r *env.Rec, ss grpc.ServerStream) error {
